@@ -442,7 +442,107 @@ func checkTreeBase(prog *ast.Program, srcLen int, base int) (string, string, str
 	if len(cv.enter) != len(nodes) {
 		return "walk_count", "walk-extra", fmt.Sprintf("walker entered %d distinct nodes, the tree has %d", len(cv.enter), len(nodes))
 	}
+	// a visitor that prunes (Enter returns nil) and one that hands the children
+	// to another visitor: as documented, a pruned node gets no Exit and none of
+	// its descendants is entered; otherwise Exit goes to the visitor Enter returned
+	parentOf := map[ast.Node]ast.Node{}
+	for _, ni := range nodes {
+		parentOf[ni.n] = ni.parent
+	}
+	pl := &pruneLog{pruned: map[ast.Node]bool{}}
+	wp = ""
+	func() {
+		defer func() {
+			if x := recover(); x != nil {
+				wp = fmt.Sprintf("%v", x)
+			}
+		}()
+		ast.Walk(&pruneVisitor{id: 0, log: pl}, prog)
+	}()
+	if wp != "" {
+		return "walk_panic", "walk-panic", "ast.Walk with a pruning visitor panicked: " + wp
+	}
+	if pl.bad == "" && len(pl.stack) != 0 {
+		pl.bad = fmt.Sprintf("%d nodes entered by a visitor that went on never got their Exit", len(pl.stack))
+	}
+	for n := range pl.pruned {
+		_ = n
+	}
+	if pl.bad == "" {
+		for _, e := range pl.entered {
+			for p := parentOf[e]; p != nil; p = parentOf[p] {
+				if pl.pruned[p] {
+					pl.bad = fmt.Sprintf("%T was entered although its ancestor %T had been pruned (Enter returned nil)", e, p)
+					break
+				}
+			}
+			if pl.bad != "" {
+				break
+			}
+		}
+	}
+	if pl.bad != "" {
+		return "walk_protocol", "walk-protocol", pl.bad
+	}
 	return "", "", ""
+}
+
+type pruneLog struct {
+	n       int
+	stack   []pruneFrame
+	pruned  map[ast.Node]bool
+	entered []ast.Node
+	bad     string
+}
+
+type pruneFrame struct {
+	node ast.Node
+	want int // id of the visitor that has to receive Exit
+}
+
+type pruneVisitor struct {
+	id  int
+	log *pruneLog
+}
+
+func (v *pruneVisitor) Enter(n ast.Node) ast.Visitor {
+	l := v.log
+	l.n++
+	l.entered = append(l.entered, n)
+	switch l.n % 3 {
+	case 0:
+		if l.n > 3 { // never the root
+			l.pruned[n] = true
+			return nil
+		}
+		fallthrough
+	case 1:
+		next := &pruneVisitor{id: l.n, log: l}
+		l.stack = append(l.stack, pruneFrame{n, next.id})
+		return next
+	}
+	l.stack = append(l.stack, pruneFrame{n, v.id})
+	return v
+}
+
+func (v *pruneVisitor) Exit(n ast.Node) {
+	l := v.log
+	if l.bad != "" {
+		return
+	}
+	if l.pruned[n] {
+		l.bad = fmt.Sprintf("Exit was called for a %T whose Enter had returned nil", n)
+		return
+	}
+	if len(l.stack) == 0 || l.stack[len(l.stack)-1].node != n {
+		l.bad = fmt.Sprintf("Exit of %T does not match the innermost entered node", n)
+		return
+	}
+	if want := l.stack[len(l.stack)-1].want; want != v.id {
+		l.bad = fmt.Sprintf("Exit of %T went to visitor %d, Enter had returned visitor %d", n, v.id, want)
+		return
+	}
+	l.stack = l.stack[:len(l.stack)-1]
 }
 
 // ---------------------------------------------------------------------------
@@ -515,6 +615,16 @@ func (e rfEngine) Exec(ci interface{}, st *Stats) (*Violation, interface{}, bool
 				body := doParse("(function(){\n" + inj[1] + "\n})")
 				if body.errStr != "" {
 					return fail("parsefunction_accepts_rejected_body", "", rc, "ParseFunction(%q, %q) returns a function although the body alone is rejected (%s): the parameter text comments the wrapper out", clip(inj[0]), clip(inj[1]), clip(body.errStr))
+				}
+			}
+		}
+		if n%8 == 0 {
+			for _, inj := range [][2]string{{string(prefix) + ") { /*", "/* x */ return 1"}, {string(prefix) + "){ //", "return 1"}} {
+				fn, ferr, _ := doParseFunction(inj[0], inj[1])
+				if ferr == "" && fn != nil {
+					if alone := doParse("(function(" + inj[0] + "\n){})"); alone.errStr != "" {
+						return fail("parsefunction_accepts_rejected_parameters", "", rc, "ParseFunction(%q, %q) returns a function although the parameter text alone is rejected (%s)", clip(inj[0]), clip(inj[1]), clip(alone.errStr))
+					}
 				}
 			}
 		}
